@@ -44,6 +44,23 @@ theorem isValid_iff (r : Request) :
       · simp [hn]; omega
     | hash h len => simp; omega
 
+/-- the spec's request rules are exactly `is_valid` / `is_head_request` -/
+theorem valid_spec (r : Request) :
+    specValid (toKind r.data) (match r.data with | .hash _ l => l | _ => 0) r.amount
+      (isValid 32 r) (isHeadRequest r) = true := by
+  unfold specValid isValid isHeadRequest toKind
+  by_cases h0 : r.amount = 0
+  · cases r.data <;> simp [h0]
+    split <;> simp [h0]
+  · have h1 : 1 ≤ r.amount := by omega
+    cases hd : r.data with
+    | none => simp [h0]
+    | origin n =>
+      by_cases hn : n = 0
+      · by_cases ha : r.amount = 1 <;> simp [h0, hn, h1, ha] <;> omega
+      · simp [h0, hn, h1]
+    | hash h len => by_cases ha : r.amount = 1 <;> simp [h0, h1, ha] <;> omega
+
 /-- **accepts only**: whatever the client accepts is acceptable — a non-empty list of headers that
     were individually validated entries of the response; for a height request at most `amount` of
     them with heights exactly `start, start+1, …`; for a hash request a single header with that
@@ -202,16 +219,16 @@ theorem perfect_accepted (req : Request) (resps : List Resp) (hfit : HeightsFit 
       have : x.hash = hh := hsh.2 x (by simp)
       simp [sortByHeight, insertByHeight, this]
 
-/-- **C28, all requests and all response lists**: the observable outcome of the client satisfies
-    the property's checker `specOK` — accepted ⇒ acceptable, never a panic, a perfect response is
-    accepted as sent, anything that is not accepted is an error. -/
-theorem client_spec (req : Request) (resps : List Resp) (hfit : HeightsFit resps) :
-    specOK (·.height) (·.hash) (toKind req.data) req.amount (resps.map toEntry)
+/-- VALUE-level statement (weaker than the property, see `client_spec_or_known` for the strict,
+    response-level one): the outcome satisfies `specValue` — accepted ⇒ acceptable, never a panic,
+    a perfect response is accepted as sent. -/
+theorem client_spec_value_level (req : Request) (resps : List Resp) (hfit : HeightsFit resps) :
+    specValue (·.height) (·.hash) (toKind req.data) req.amount (resps.map toEntry)
       (obsOf (decodeAndVerify req resps)) = true := by
   cases hout : decodeAndVerify req resps with
   | panic => exact absurd hout (never_panics req resps)
   | ok hs =>
-    simp only [obsOf, specOK, Bool.and_eq_true, Bool.or_eq_true, Bool.not_eq_true', beq_iff_eq]
+    simp only [obsOf, specValue, Bool.and_eq_true, Bool.or_eq_true, Bool.not_eq_true', beq_iff_eq]
     refine ⟨accept_sound req resps hs hout, ?_⟩
     by_cases hp : perfect (·.height) (·.hash) (toKind req.data) req.amount (resps.map toEntry) = true
     · right
@@ -221,12 +238,232 @@ theorem client_spec (req : Request) (resps : List Resp) (hfit : HeightsFit resps
       exact Outcome.ok.inj this
     · left; simpa using hp
   | err e =>
-    simp only [obsOf, specOK, Bool.not_eq_true']
+    simp only [obsOf, specValue, Bool.not_eq_true']
     by_cases hp : perfect (·.height) (·.hash) (toKind req.data) req.amount (resps.map toEntry) = true
     · have := perfect_accepted req resps hfit hp
       rw [hout] at this
       cases this
     · simpa using hp
+
+/-! ### the strict, response-level reading ("anything else is an error") -/
+
+theorem entries_all_good (resps : List Resp) :
+    (resps.map toEntry).all good = resps.all goodB := by
+  rw [List.all_map]; rfl
+
+theorem entries_takeWhile (resps : List Resp) :
+    (resps.map toEntry).takeWhile good = (resps.takeWhile goodB).map toEntry := by
+  induction resps with
+  | nil => rfl
+  | cons r rs ih =>
+    have : good (toEntry r) = goodB r := rfl
+    simp only [List.map_cons, List.takeWhile_cons, this]
+    split <;> simp [ih]
+
+/-- a well-formed response is accepted, as its headers in ascending order -/
+theorem wellFormed_accepted (req : Request) (resps : List Resp) (hfit : HeightsFit resps)
+    (hw : wellFormed (·.height) (·.hash) (toKind req.data) req.amount (resps.map toEntry) = true) :
+    decodeAndVerify req resps = .ok (sortByHeight (validated resps)) := by
+  simp only [wellFormed, Bool.and_eq_true, decide_eq_true_eq, List.length_map, entries_all_good,
+    validatedOf_eq, sortH_eq] at hw
+  obtain ⟨⟨hall, hlen⟩, hacc⟩ := hw
+  have hall' : ∀ r ∈ resps, r.status = 1 ∧ r.decoded.isSome = true := by
+    intro r hr
+    have := List.all_eq_true.mp hall r hr
+    simpa [goodB] using this
+  have hloop := decodeLoop_all resps hall' []
+  simp only [List.nil_append] at hloop
+  simp only [acceptable, Bool.and_eq_true, Bool.not_eq_true', List.isEmpty_eq_false_iff] at hacc
+  obtain ⟨⟨hne, _⟩, hshape⟩ := hacc
+  have hperm := sortByHeight_perm (validated resps)
+  have hresne : resps.isEmpty = false := by
+    cases resps with
+    | nil => simp [validated, sortByHeight] at hne
+    | cons _ _ => rfl
+  have hfitS : ∀ h ∈ sortByHeight (validated resps), h.height ≤ U64_MAX := by
+    intro h hh
+    have hh' := hperm.mem_iff.mp hh
+    simp only [validated, List.mem_filterMap] at hh'
+    obtain ⟨r, hr, hrh⟩ := hh'
+    split at hrh
+    · exact hfit r hr h hrh
+    · cases hrh
+  unfold decodeAndVerify decodeAndVerifyG
+  simp only [hresne, Bool.false_eq_true, ↓reduceIte, hloop]
+  have hnl : ¬ resps.length > req.amount := by omega
+  simp only [hnl, ↓reduceIte]
+  cases hdata : req.data with
+  | none => simp [hdata, toKind] at hshape
+  | origin start =>
+    simp only [hdata, toKind] at hshape ⊢
+    by_cases hs0 : start = 0
+    · simp only [hs0, ↓reduceIte, decide_eq_true_eq] at hshape ⊢
+      simp [hshape]
+    · simp only [hs0, ↓reduceIte, Bool.and_eq_true, decide_eq_true_eq, beq_iff_eq] at hshape ⊢
+      have hl0 : (sortByHeight (validated resps)).length ≠ 0 := by
+        intro e; exact hne (List.length_eq_zero_iff.mp e)
+      have hm := heightsMatchFrom_complete _ hfitS start hshape.2
+      simp [hl0, hm]
+  | hash hh len =>
+    simp only [hdata, toKind, Bool.and_eq_true, decide_eq_true_eq, List.all_eq_true, beq_iff_eq] at hshape ⊢
+    match hv : sortByHeight (validated resps), hshape with
+    | [x], hsh =>
+      have : x.hash = hh := hsh.2 x (by simp)
+      simp [this]
+
+/-- on responses whose entries are ALL OK and validated the client meets the property strictly:
+    accepted ⇔ well formed, and the accepted value is the ascending list of the headers sent -/
+theorem allgood_strict (req : Request) (resps : List Resp) (hfit : HeightsFit resps)
+    (hall : resps.all goodB = true) :
+    specStrict (·.height) (·.hash) (toKind req.data) req.amount (resps.map toEntry)
+      (obsOf (decodeAndVerify req resps)) = true := by
+  cases hout : decodeAndVerify req resps with
+  | panic => exact absurd hout (never_panics req resps)
+  | ok hs =>
+    obtain ⟨hlen, headers, hloop, hsort⟩ := ok_sorted req resps hs hout
+    have hall' : ∀ r ∈ resps, r.status = 1 ∧ r.decoded.isSome = true := by
+      intro r hr
+      have := List.all_eq_true.mp hall r hr
+      simpa [goodB] using this
+    have hl := decodeLoop_all resps hall' []
+    simp only [List.nil_append] at hl
+    rw [hl] at hloop
+    injection hloop with hloop
+    subst hloop
+    have hacc := accept_sound req resps hs hout
+    simp only [obsOf, specStrict, wellFormed, Bool.and_eq_true, decide_eq_true_eq, List.length_map,
+      entries_all_good, validatedOf_eq, sortH_eq, beq_iff_eq]
+    rw [← hsort]
+    exact ⟨⟨⟨hall, hlen⟩, hacc⟩, rfl⟩
+  | err e =>
+    simp only [obsOf, specStrict, Bool.not_eq_true']
+    cases hw : wellFormed (·.height) (·.hash) (toKind req.data) req.amount (resps.map toEntry) with
+    | false => rfl
+    | true =>
+      have := wellFormed_accepted req resps hfit hw
+      rw [hout] at this
+      cases this
+
+/-- no bad entry after a good one: the response is all good, or its first entry is already bad -/
+def NoBadTail (resps : List Resp) : Prop :=
+  resps.takeWhile goodB = resps ∨ resps.takeWhile goodB = []
+
+/-- FULL STATEMENT (false of lumina, see `client_spec_counterexample`):
+    `∀ req resps, specStrict … (obsOf (decodeAndVerify req resps))`. -/
+def FullStatement : Prop :=
+  ∀ (req : Request) (resps : List Resp), HeightsFit resps →
+    specStrict (·.height) (·.hash) (toKind req.data) req.amount (resps.map toEntry)
+      (obsOf (decodeAndVerify req resps)) = true
+
+/-- the strict property holds on every response without a bad entry after a good one
+    (`_partial`: the complement is the known finding `C28/validated-prefix-accepted`) -/
+theorem client_spec_partial (req : Request) (resps : List Resp) (hfit : HeightsFit resps)
+    (hnb : NoBadTail resps) :
+    specStrict (·.height) (·.hash) (toKind req.data) req.amount (resps.map toEntry)
+      (obsOf (decodeAndVerify req resps)) = true := by
+  rcases hnb with hall | hnone
+  · apply allgood_strict req resps hfit
+    rw [List.all_eq_true]
+    intro r hr
+    rw [← hall] at hr
+    exact takeWhile_all_good resps r hr
+  · -- empty, or first entry bad: an error, and the response is not well formed
+    have hnw : wellFormed (·.height) (·.hash) (toKind req.data) req.amount (resps.map toEntry) = false := by
+      cases resps with
+      | nil => simp [wellFormed, acceptable, validatedOf, sortH]
+      | cons r rs =>
+        have hg : goodB r = false := by
+          by_cases h : goodB r = true
+          · simp [List.takeWhile_cons, h] at hnone
+          · simpa using h
+        have hallf : (r :: rs).all goodB = false := by simp [hg]
+        simp only [wellFormed, entries_all_good, hallf, Bool.false_and]
+    cases hout : decodeAndVerify req resps with
+    | panic => exact absurd hout (never_panics req resps)
+    | err e => simp [obsOf, specStrict, hnw]
+    | ok hs =>
+      exfalso
+      obtain ⟨_, headers, hloop, _⟩ := ok_sorted req resps hs hout
+      cases resps with
+      | nil =>
+        simp [decodeAndVerify, decodeAndVerifyG] at hout
+      | cons r rs =>
+        have hg : goodB r = false := by
+          by_cases h : goodB r = true
+          · simp [List.takeWhile_cons, h] at hnone
+          · simpa using h
+        obtain ⟨e, he⟩ := decodeLoop_first_bad r rs hg
+        rw [he] at hloop
+        cases hloop
+
+/-- **C28 strictly, all requests and all response lists**: the outcome meets the property's
+    response-level checker, OR the input is in the one known class `validatedPrefixClass`
+    (≤ amount entries, a bad entry after good ones, the client accepts the good prefix — which on
+    its own is a well-formed response — instead of an error).  The driver reports exactly this
+    class under the fingerprint `C28/validated-prefix-accepted` (open finding); any other failure of
+    `specStrict` is a new violation. -/
+theorem client_spec_or_known (req : Request) (resps : List Resp) (hfit : HeightsFit resps) :
+    specStrict (·.height) (·.hash) (toKind req.data) req.amount (resps.map toEntry)
+      (obsOf (decodeAndVerify req resps)) = true ∨
+    validatedPrefixClass (·.height) (·.hash) (toKind req.data) req.amount (resps.map toEntry)
+      (obsOf (decodeAndVerify req resps)) = true := by
+  by_cases hnb : NoBadTail resps
+  · exact Or.inl (client_spec_partial req resps hfit hnb)
+  · have hp : resps.takeWhile goodB ≠ [] := fun h => hnb (Or.inr h)
+    have hne : resps.takeWhile goodB ≠ resps := fun h => hnb (Or.inl h)
+    -- not all good, hence not well formed
+    have hnotall : resps.all goodB = false := by
+      cases h : resps.all goodB with
+      | false => rfl
+      | true =>
+        exfalso; apply hne
+        exact takeWhile_eq_self_of_all resps (List.all_eq_true.mp h)
+    have hnw : wellFormed (·.height) (·.hash) (toKind req.data) req.amount (resps.map toEntry) = false := by
+      simp only [wellFormed, entries_all_good, hnotall, Bool.false_and]
+    by_cases hlen : resps.length ≤ req.amount
+    · have hpre := decode_prefix true req resps hp hlen
+      have hfitp : HeightsFit (resps.takeWhile goodB) := by
+        intro r hr h hh
+        exact hfit r (mem_of_mem_takeWhile resps r hr) h hh
+      have hallp : (resps.takeWhile goodB).all goodB = true := by
+        rw [List.all_eq_true]; exact takeWhile_all_good resps
+      have hstrictp := allgood_strict req (resps.takeWhile goodB) hfitp hallp
+      have hdv : decodeAndVerify req resps = decodeAndVerify req (resps.takeWhile goodB) := hpre
+      rw [← hdv] at hstrictp
+      cases hout : decodeAndVerify req resps with
+      | panic => exact absurd hout (never_panics req resps)
+      | err e => left; simp [obsOf, specStrict, hnw]
+      | ok hs =>
+        right
+        rw [hout] at hstrictp
+        simp only [obsOf, validatedPrefixClass, hnw, Bool.not_false, Bool.true_and, List.length_map,
+          Bool.and_eq_true, decide_eq_true_eq, entries_takeWhile]
+        exact ⟨hlen, hstrictp⟩
+    · -- oversized: refused
+      left
+      have : decodeAndVerify req resps = .err .invalidResponse := by
+        have hl : resps.length > req.amount := by omega
+        cases resps with
+        | nil => simp at hp
+        | cons r rs =>
+          unfold decodeAndVerify decodeAndVerifyG
+          rw [if_neg (by simp), if_pos hl]
+      simp [this, obsOf, specStrict, hnw]
+
+/-- lumina does NOT meet the strict reading: `[h5, INVALID-body, h7]` for heights 5..7 is not a
+    well-formed response, yet the client returns `Ok([h5])` (deliberate: partial responses are
+    supported and the session re-requests the rest; unit test
+    `request_range_responds_with_invalid_headaer_in_the_middle` pins it) -/
+theorem client_spec_counterexample : ¬ FullStatement := by
+  intro h
+  have := h { data := .origin 5, amount := 3 }
+    [⟨1, some ⟨5, [5], 5⟩⟩, ⟨1, none⟩, ⟨1, some ⟨7, [7], 7⟩⟩]
+    (by
+      intro r hr x hx
+      simp only [List.mem_cons, List.mem_nil_iff, or_false] at hr
+      rcases hr with rfl | rfl | rfl <;> simp at hx <;> subst hx <;> simp [U64_MAX])
+  revert this
+  decide
 
 /-- the code BEFORE the `fix:` commit violated the property: a height request at `u64::MAX`
     answered with one validated header panicked (`start..start + 1` overflows) -/
